@@ -30,6 +30,13 @@ static void istream_read(VERIF_ISTREAM *fs, char *p, size_t n)
     fs->failbit = 1;
   }
 }
+/* istream::peek(): next byte without extracting it, or traits::eof() (and eofbit) at the end / on a failed stream */
+static int istream_peek(VERIF_ISTREAM *fs)
+{
+  if (fs->failbit || fs->eofbit) return -1;
+  if (fs->pos >= fs->len) { fs->eofbit = 1; return -1; }
+  return (int)fs->buf[fs->pos];
+}
 static _Bool istream_good(const VERIF_ISTREAM *fs) { return !fs->failbit && !fs->eofbit; }
 static _Bool istream_eof(const VERIF_ISTREAM *fs) { return fs->eofbit; }
 static _Bool istream_fail(const VERIF_ISTREAM *fs) { return fs->failbit; }
